@@ -296,6 +296,8 @@ def expectGets (obs : String) (expected : List Nat) : Option String :=
   if commaNats obs = some expected then none else some "channel-read"
 
 def judge (op obs : String) : String :=
+  if obs.startsWith "ub:" ∨ obs.startsWith "assert:" ∨ obs.startsWith "crash" ∨ obs.startsWith "timeout" then
+    (if (words op).head? = some "xdop" then "ok" else fail ("memory-safety " ++ (obs.take 60).toString)) else
   match words op, words obs with
   | ["ssweep", W, F, N, c0, cnt, v0, vs], ows =>
     match nats [W, F, N, c0, cnt, v0, vs], splitBar ows with
